@@ -39,6 +39,9 @@ func (o ReadOpts) Options() []carv2.Option {
 	if o.Trusted {
 		out = append(out, carv2.WithTrustedCAR(true))
 	}
+	if o.ZeroLimits {
+		out = append(out, carv2.MaxAllowedHeaderSize(0), carv2.MaxAllowedSectionSize(0))
+	}
 	return out
 }
 
@@ -217,7 +220,7 @@ func runC14One(l *Layout, choices string, profile string, del sim.Delivery, opts
 			return viol("medium/wrong-metadata/held-result@"+loc, "the metadata SkipNext returned for block #%d changed while the iteration went on: now {cid %s off %d src %d size %d} (choices %q)", hm.i, md.Cid, md.Offset, md.SourceOffset, md.Size, choices)
 		}
 	}
-	if l.Spec.V2 {
+	if l.Spec.V2 && profile != sim.ProfBufio { // (a bufio.Reader reads ahead on its own account)
 		end := l.DataOffset + l.DataSize
 		if w := hw(); w > end {
 			return viol("medium/over-consumption/v2-payload@"+loc, "the source was consumed up to offset %d, past the end of the payload at %d (choices %q)", w, end, choices)
